@@ -7,9 +7,9 @@ request `["js", jobs, rule, scheds]`
   rule   : 0 fifo | 1 spt | 2 lpt | 3 mwkr | -1 (no deterministic mirror requested)
   scheds : list of `[entries, obj]`, entries = `[job, op, start, end]` in dict insertion order,
            obj a rational `[num, den]`
-reply `[ruleSchedule | null, [[chk, refine, makespan] …]]`
+reply `[ruleSchedule | null, [[clauses, refine, makespan] …]]`
   ruleSchedule : the mirror `dispatchRule` (entries in placement order)
-  chk          : verified checker `chkSchedule` (valid schedule and obj = latest end)
+  clauses      : the seven conjuncts of the verified checker `chkSchedule`
   refine       : `isDispatchOf` (the schedule is the abstract machine's for its own pick order)
 
 request `["vrp", n, req, dist, demand, twStart, twEnd, service, cap, weights, tol, states, steps]`
@@ -58,8 +58,10 @@ private def handleJs (jobs rule scheds : Val) : String :=
       | Val.arr [ev, ov] =>
         match parseEntries ev, ov.toRat? with
         | some S, some q =>
-          let chk := q.den == 1 && chkSchedule jobs S q.num
-          Val.arr [Val.bool chk, Val.bool (isDispatchOf jobs S), Val.int (makespan S)]
+          let cl := [chkOnce S, chkKnown jobs S, chkPresent jobs S, chkDur jobs S, chkOrder S,
+            chkMach jobs S, q.den == 1 && chkObj S q.num]
+          -- `cl.all id` is `chkSchedule jobs S q.num` (for an integral objective)
+          Val.arr [Val.arr (cl.map Val.bool), Val.bool (isDispatchOf jobs S), Val.int (makespan S)]
         | _, _ => Val.str "bad schedule"
       | _ => Val.str "bad schedule"
     (Val.arr [Val.ofOpt entriesVal rs, Val.arr outs]).render
@@ -104,7 +106,9 @@ private def handleVrp (args : List Val) : String :=
         let sv := sts.map fun (s, a, o) =>
           let arrOK := a.length == s.routes.length &&
             (s.routes.zip a).all fun ra => chkArrivals tol P ra.1 ra.2
-          Val.arr [Val.bool (chkInv P s), Val.bool arrOK, Val.bool (chkObjective tol W P s o),
+          -- the conjunction of these six is `chkInv P s`
+          let inv := [chkRange P s, chkNodupU s, chkNotLost P s, chkNotBoth P s, chkNodupR s, chkSingle P s]
+          Val.arr [Val.arr (inv.map Val.bool), Val.bool arrOK, Val.bool (chkObjective tol W P s o),
                    Val.ofRat (objective W P s)]
         let tv := steps.map fun st =>
           match st with
